@@ -50,6 +50,11 @@ func (x *X) call1(f *Frame, st *State, call *ast.CallExpr) []Value {
 	if sig == nil {
 		fail("call of non-function at %s", x.pos(call.Pos()))
 	}
+	if fn != nil {
+		if res, ok := x.droppedCall(f, st, fn, sig, call); ok {
+			return res
+		}
+	}
 	// receiver
 	var recv *Value
 	recvUnsupported := ""
